@@ -60,3 +60,38 @@ fn ack_packet_roundtrip_le4() {
     assert!(back[i] == vals[i]);
     kani::cover!(true);
 }
+
+// C15 bounded cross-check on the compiled decoder (robust against restructuring of the loops): every NAK frame of up to
+// 20 bytes (two loss-list entries / ranges) yields at most 1000 + (len-4)/4 entries.  bounded: len <= 20.
+#[kani::proof]
+#[kani::unwind(1003)]
+fn nak_expansion_bounded_le20() {
+    let buf: [u8; 20] = kani::any();
+    let len: usize = kani::any();
+    kani::assume(len <= 20);
+    let out = parse_srt_nak(&buf[..len]);
+    let bound = 1000 + if len >= 4 { (len - 4) / 4 } else { 0 };
+    assert!(out.len() <= bound);
+}
+
+// C15 / C09: every decoder returns (no panic) on every byte string of up to 24 bytes, and the fixed-offset layouts hold
+#[kani::proof]
+#[kani::unwind(9)]
+fn decoders_total_and_layouts_le24() {
+    let buf: [u8; 24] = kani::any();
+    let len: usize = kani::any();
+    kani::assume(len <= 24);
+    let b = &buf[..len];
+    let t = get_packet_type(b);
+    assert!(t == if len >= 2 { Some(((buf[0] as u16) << 8) | buf[1] as u16) } else { None });
+    let ack = parse_srt_ack(b);
+    let want = if len >= 20 && t == Some(0x8002) { Some(u32::from_be_bytes([buf[16], buf[17], buf[18], buf[19]])) } else { None };
+    assert!(ack == want);
+    let sn = get_srt_sequence_number(b);
+    assert!(sn.is_some() == (len >= 4 && buf[0] & 0x80 == 0));
+    assert!(is_srt_data_retransmit(b) == (len >= 8 && buf[0] & 0x80 == 0 && buf[4] & 0x04 != 0));
+    let _ = extract_keepalive_timestamp(b);
+    let _ = extract_keepalive_conn_info(b);
+    let acks = parse_srtla_ack(b);
+    assert!(acks.len() == if len >= 8 && t == Some(0x9100) { (len - 4) / 4 } else { 0 });
+}
